@@ -398,7 +398,8 @@ def regexify(rng, s):
     if r < 0.88:
         return "^\\S+" + sube[-2:] + "$"
     if r < 0.92:
-        return "\\d"
+        # escape classes: the upper-case ones change their meaning when a pattern is lower-cased
+        return rng.choice(["\\d", "\\D+", "\\W", "^\\S+$", "\\S\\W", "^\\D"])
     if r < 0.95:
         return "^[A-Z]"
     if r < 0.97:
@@ -415,6 +416,13 @@ def gen_index_leaf(rng, schema, ds, table):
     if table in ("hosts", "services"):
         col = "name" if table == "hosts" else "host_name"
         gcol = "groups" if table == "hosts" else "host_groups"
+        if rng.random() < 0.08:
+            # the columns with a lower-case copy: a case-insensitive pattern is matched against the copy in lower case - unless
+            # that would change its meaning (an upper-case escape class)
+            lcol = rng.choice(["name", "alias", "address", "display_name"] if table == "hosts" else ["host_name", "description", "display_name", "host_name"])
+            tail = "".join("\\" + c if c in ".|()[]{}*+?^$\\" else c for c in h[-2:])
+            pat = rng.choice(["^\\S+" + tail + "$", "\\W" + tail, "^\\D+$", "^\\S+$", "\\S\\W\\S", "^\\S+" + tail.upper() + "$"])
+            return "%s %s %s" % (lcol, rng.choice(["~~", "!~~", "!~~"]), pat)
         r = rng.random()
         if r < 0.25:
             return "%s = %s" % (col, h if rng.random() < 0.8 else mutate_case(rng, h))
@@ -456,7 +464,12 @@ def gen_leaf(rng, schema, ds, table, cols, opts):
         op = rng.choice(ALL_OPS if wild else STR_OPS)
         strs = [v for v in vals if isinstance(v, str)]
         base = rng.choice(strs) if strs and rng.random() < 0.8 else rstr(rng, HOST_NAMES + WORDS)
-        if op in ("~", "!~", "~~", "!~~"):
+        if op in ("~~", "!~~") and rng.random() < 0.12:
+            # a case-insensitive pattern with an upper-case escape class must not be lower-cased (\S is not \s); the tail of a
+            # real value makes it match some rows and not others
+            tail = "".join("\\" + c if c in ".|()[]{}*+?^$\\" else c for c in base[-2:])
+            val = rng.choice(["^\\S+" + tail + "$", "\\W" + tail, "^\\D+$", "\\S\\W\\S", "^\\S+$", "\\D" + tail + "$"])
+        elif op in ("~", "!~", "~~", "!~~"):
             val = regexify(rng, mutate_case(rng, base) if "~~" in op and rng.random() < 0.5 else base)
         elif op in ("=~", "!=~"):
             val = mutate_case(rng, base)
